@@ -253,9 +253,10 @@ func checkC15(c *Ctx) {
 		if r.Chance(15) {
 			size = r.Intn(41)
 		}
-		kind := r.Intn(4)
+		kind := r.Intn(8)
 		var printed, kname string
-		var vals []int64
+		var vals []int64   // signed kinds
+		var uvals []uint64 // unsigned kinds
 		var parseBack func(string) (string, bool)
 		mk := func(bits int, signed bool) {
 			for j := 0; j < size; j++ {
@@ -268,71 +269,46 @@ func checkC15(c *Ctx) {
 				if v.Cmp(hi) > 0 {
 					v = hi
 				}
-				vals = append(vals, v.Int64())
+				if signed {
+					vals = append(vals, v.Int64())
+				} else {
+					uvals = append(uvals, v.Uint64())
+				}
 			}
 		}
 		switch kind {
 		case 0:
 			kname = "i8"
 			mk(8, true)
-			s := make([]int8, len(vals))
-			for j, v := range vals {
-				s[j] = int8(v)
-			}
-			printed = flaghelper.NewSignedIntegralSlice(&s).String()
-			parseBack = func(t string) (string, bool) {
-				var dst []int8
-				f := flaghelper.NewSignedIntegralSlice(&dst)
-				if err := f.Set(t); err != nil {
-					return "err", false
-				}
-				return joinInts(dst), true
-			}
+			printed, parseBack = intSliceVia[int8](vals, nil)
 		case 1:
 			kname = "i64"
 			mk(64, true)
-			s := append([]int64(nil), vals...)
-			if s == nil {
-				s = []int64{}
-			}
-			printed = flaghelper.NewSignedIntegralSlice(&s).String()
-			parseBack = func(t string) (string, bool) {
-				var dst []int64
-				if err := flaghelper.NewSignedIntegralSlice(&dst).Set(t); err != nil {
-					return "err", false
-				}
-				return joinInts(dst), true
-			}
+			printed, parseBack = intSliceVia[int64](vals, nil)
 		case 2:
 			kname = "u16"
 			mk(16, false)
-			s := make([]uint16, len(vals))
-			for j, v := range vals {
-				s[j] = uint16(v)
-			}
-			printed = flaghelper.NewUnsignedIntegralSlice(&s).String()
-			parseBack = func(t string) (string, bool) {
-				var dst []uint16
-				if err := flaghelper.NewUnsignedIntegralSlice(&dst).Set(t); err != nil {
-					return "err", false
-				}
-				return joinInts(dst), true
-			}
-		default:
+			printed, parseBack = intSliceVia[uint16](nil, uvals)
+		case 3:
 			kname = "int"
 			mk(64, true)
-			s := make([]int, len(vals))
-			for j, v := range vals {
-				s[j] = int(v)
-			}
-			printed = flaghelper.NewSignedIntegralSlice(&s).String()
-			parseBack = func(t string) (string, bool) {
-				var dst []int
-				if err := flaghelper.NewSignedIntegralSlice(&dst).Set(t); err != nil {
-					return "err", false
-				}
-				return joinInts(dst), true
-			}
+			printed, parseBack = intSliceVia[int](vals, nil)
+		case 4:
+			kname = "u64"
+			mk(64, false)
+			printed, parseBack = intSliceVia[uint64](nil, uvals)
+		case 5:
+			kname = "uint"
+			mk(64, false)
+			printed, parseBack = intSliceVia[uint](nil, uvals)
+		case 6:
+			kname = "u8"
+			mk(8, false)
+			printed, parseBack = intSliceVia[uint8](nil, uvals)
+		default:
+			kname = "i32"
+			mk(32, true)
+			printed, parseBack = intSliceVia[int32](vals, nil)
 		}
 		text := printed
 		lenient := r.Chance(30) && size > 0
@@ -353,13 +329,17 @@ func checkC15(c *Ctx) {
 			impl = "ok " + got
 		}
 		model := c.Drv.Ask("ps intslice " + kname + " " + hexEnc(text))
-		cs := map[string]any{"stream": "intslice", "kind": kname, "values": vals, "text": text}
+		wantVals := joinInts(vals)
+		if vals == nil {
+			wantVals = joinInts(uvals)
+		}
+		cs := map[string]any{"stream": "intslice", "kind": kname, "values": wantVals, "text": text}
 		res.Count("intslice/" + kname + "/" + strings.SplitN(impl, " ", 2)[0])
 		if impl != model {
 			res.Add(Finding{Kind: "disagreement", What: "integer slice parse: model != implementation", Case: cs, Observed: impl, Model: model})
 		}
 		if text == printed || lenient {
-			want := "ok " + joinInts(vals)
+			want := "ok " + wantVals
 			if impl != want {
 				res.Add(Finding{Kind: "violation", What: "integer slice does not parse back from its printed form", Case: cs, Expected: want, Observed: impl})
 			}
@@ -621,6 +601,106 @@ func checkC15(c *Ctx) {
 			res.Case("4|str|"+s, s != "", cs)
 		}
 	}
+}
+
+// intSliceVia prints the values with the matching flag helper and returns a function that parses text
+// back through a fresh helper's Set.
+func intSliceVia[I int8 | int16 | int32 | int64 | int | uint8 | uint16 | uint32 | uint64 | uint](vals []int64, uvals []uint64) (string, func(string) (string, bool)) {
+	var s []I
+	for _, v := range vals {
+		s = append(s, I(v))
+	}
+	for _, v := range uvals {
+		s = append(s, I(v))
+	}
+	if s == nil {
+		s = []I{}
+	}
+	var printed string
+	var zero I
+	signed := zero-1 < zero
+	if signed {
+		printed = intHelperString(&s)
+	} else {
+		printed = uintHelperString(&s)
+	}
+	return printed, func(t string) (string, bool) {
+		var dst []I
+		var err error
+		if signed {
+			err = intHelperSet(&dst, t)
+		} else {
+			err = uintHelperSet(&dst, t)
+		}
+		if err != nil {
+			return "err", false
+		}
+		return joinInts(dst), true
+	}
+}
+
+func intHelperString(p any) string {
+	switch s := p.(type) {
+	case *[]int8:
+		return flaghelper.NewSignedIntegralSlice(s).String()
+	case *[]int16:
+		return flaghelper.NewSignedIntegralSlice(s).String()
+	case *[]int32:
+		return flaghelper.NewSignedIntegralSlice(s).String()
+	case *[]int64:
+		return flaghelper.NewSignedIntegralSlice(s).String()
+	case *[]int:
+		return flaghelper.NewSignedIntegralSlice(s).String()
+	}
+	return "?"
+}
+
+func intHelperSet(p any, t string) error {
+	switch s := p.(type) {
+	case *[]int8:
+		return flaghelper.NewSignedIntegralSlice(s).Set(t)
+	case *[]int16:
+		return flaghelper.NewSignedIntegralSlice(s).Set(t)
+	case *[]int32:
+		return flaghelper.NewSignedIntegralSlice(s).Set(t)
+	case *[]int64:
+		return flaghelper.NewSignedIntegralSlice(s).Set(t)
+	case *[]int:
+		return flaghelper.NewSignedIntegralSlice(s).Set(t)
+	}
+	return fmt.Errorf("?")
+}
+
+func uintHelperString(p any) string {
+	switch s := p.(type) {
+	case *[]uint8:
+		return flaghelper.NewUnsignedIntegralSlice(s).String()
+	case *[]uint16:
+		return flaghelper.NewUnsignedIntegralSlice(s).String()
+	case *[]uint32:
+		return flaghelper.NewUnsignedIntegralSlice(s).String()
+	case *[]uint64:
+		return flaghelper.NewUnsignedIntegralSlice(s).String()
+	case *[]uint:
+		return flaghelper.NewUnsignedIntegralSlice(s).String()
+	}
+	return "?"
+}
+
+func uintHelperSet(p any, t string) error {
+	switch s := p.(type) {
+	case *[]uint8:
+		return flaghelper.NewUnsignedIntegralSlice(s).Set(t)
+	case *[]uint16:
+		return flaghelper.NewUnsignedIntegralSlice(s).Set(t)
+	case *[]uint32:
+		return flaghelper.NewUnsignedIntegralSlice(s).Set(t)
+	case *[]uint64:
+		return flaghelper.NewUnsignedIntegralSlice(s).Set(t)
+	case *[]uint:
+		return flaghelper.NewUnsignedIntegralSlice(s).Set(t)
+	}
+	return fmt.Errorf("?")
 }
 
 func joinInts[I int8 | int16 | int32 | int64 | int | uint8 | uint16 | uint32 | uint64 | uint](vs []I) string {
